@@ -2,7 +2,7 @@
 # tools/seeded_latency.sh : for every seeded change, how early does the quick
 # check see it?  Prints the run index of the first violating run (from the
 # replay notes), the signature and the elapsed time.
-for d in /verif/seeded/*/; do
+for d in /verif/seeded/${1:-}*/; do
     name=$(basename "$d")
     prop=$(python3 -c "import json;print(json.load(open('$d/meta.json'))['property'])")
     out=$(/verif/tools/try_seeded.sh "$d" $prop quick 2>&1)
